@@ -80,8 +80,9 @@ def registry(strict=False):
          requires={'nonce': 'state.nonceSize == 8 or state.nonceSize == 12 or state.nonceSize == 16'},
          ensures={
              # RFC 8439 2.3: serialized (state + 20 rounds of state), little endian
-             'keystream': 'all(le32(state.keyStream + 4 * i) == old(chacha_word(state.h, i)) for i in range(16))',
-             'rounds_out': 'all(h[i] == old(chacha_rounds(state.h, i)) for i in range(16))',
+             # (spec_: proved for chacha20_core, not handed to its callers -- they do not need the 20 rounds in their queries)
+             'spec_keystream': 'all(le32(state.keyStream + 4 * i) == old(chacha_word(state.h, i)) for i in range(16))',
+             'spec_rounds_out': 'all(h[i] == old(chacha_rounds(state.h, i)) for i in range(16))',
              'used': 'state.usedKeyStream == 0',
              'frame': 'all(state.h[i] == old(state.h[i]) for i in range(12)) and state.h[14] == old(state.h[14]) and '
                       'state.h[15] == old(state.h[15]) and state.nonceSize == old(state.nonceSize)',
@@ -126,7 +127,7 @@ def registry(strict=False):
              'nonce_size': 'not (%s) and state.nonceSize != 8 and state.nonceSize != 12 ==> result == %d' % (NULLS, ERR_NONCE_SIZE),
              'codes': 'result == 0 or result == %d or result == %d or result == %d' % (ERR_NULL, ERR_NONCE_SIZE, ERR_MAX_DATA),
              'buffer': 'not null(state) ==> state.usedKeyStream <= 64',
-             'single_chunk': '(not (%s) and result == 0 and old(state.usedKeyStream) + len <= 64) ==> '
+             'single_chunk': '(not (%s) and result == 0 and old(state.usedKeyStream) + len <= 64 and old(state.usedKeyStream) < 64) ==> '
                              '(all(out[i] == old(in[i]) ^ old(state.keyStream[state.usedKeyStream + i]) for i in range(len)) and '
                              'state.usedKeyStream == old(state.usedKeyStream) + len and '
                              'all(state.h[i] == old(state.h[i]) for i in range(16)))' % NULLS},
